@@ -462,7 +462,11 @@ func visitInstr(fr *frame, instr ssa.Instruction) continuation {
 		if !fitsInt(reserve, fr.i.sizes) {
 			panic(fmt.Sprintf("ssa.MakeMap.Reserve value %d does not fit in int", reserve))
 		}
-		fr.set(instr, makeMap(instr.Type().Underlying().(*types.Map).Key(), reserve))
+		mv := makeMap(instr.Type().Underlying().(*types.Map).Key(), reserve)
+		if om, ok := mv.(*omap); ok {
+			om.mt = instr.Type().String() // the map's full type, for the map-order filter
+		}
+		fr.set(instr, mv)
 
 	case *ssa.Range:
 		fr.set(instr, rangeIter(fr.get(instr.X), instr.X.Type()))
